@@ -118,8 +118,10 @@ impl ModelGen {
     }
     pub fn arith(&self, r: &mut Rng, d: &[VarDecl], depth: usize) -> Exp {
         if depth == 0 || r.chance(2, 5) { return self.affine(r, d); }
-        match r.below(10) {
+        match r.below(11) {
             // abs of something whose sign the analyser can know (a non-affine block shifted far from zero): the shortcut arms
+            10 => { let k = |r: &mut Rng| num(*r.pick(KS)); let blk = if r.chance(1, 2) { Exp::Min(vec![k(r), k(r)]) } else { Exp::Max(vec![k(r), k(r), k(r)]) };
+                    if r.chance(1, 2) { bin(BinOp::Add, bin(BinOp::Mul, blk, self.affine(r, d)), self.affine(r, d)) } else { bin(BinOp::Add, self.affine(r, d), blk) } }
             9 => { let inner = match r.below(3) { 0 => Exp::Max(vec![self.affine(r, d), self.affine(r, d)]), 1 => Exp::Min(vec![self.affine(r, d), self.affine(r, d)]), _ => Exp::Abs(b(self.affine(r, d))) };
                    let k = num(*r.pick(&[40.0, 25.0, 60.0]));
                    Exp::Abs(b(match r.below(3) { 0 => bin(BinOp::Sub, inner, k), 1 => bin(BinOp::Add, inner, k), _ => bin(BinOp::Sub, k, inner) })) }
@@ -128,7 +130,7 @@ impl ModelGen {
             3 => Exp::Min((0..2 + r.below(2)).map(|_| self.arith(r, d, depth - 1)).collect()),
             4 => bin(BinOp::Add, self.arith(r, d, depth - 1), self.arith(r, d, depth - 1)),
             5 => bin(BinOp::Sub, self.arith(r, d, depth - 1), self.arith(r, d, depth - 1)),
-            6 => bin(BinOp::Mul, num(*r.pick(COEFS)), self.arith(r, d, depth - 1)),
+            6 => { let c = num(*r.pick(COEFS)); let inner = self.arith(r, d, depth - 1); if r.chance(1, 2) { bin(BinOp::Mul, c, inner) } else { bin(BinOp::Mul, inner, c) } }   // constant on either side
             7 => Exp::UnOp(UnOp::Neg, b(self.arith(r, d, depth - 1))),
             _ => if self.logic && r.chance(1, 2) { bin(BinOp::Add, self.arith(r, d, depth - 1), self.logicv(r, d, 1)) } else { bin(BinOp::Div, self.arith(r, d, depth - 1), num(*r.pick(&[2.0, -2.0, 4.0]))) },
         }
@@ -178,7 +180,14 @@ impl ModelGen {
         let nc = 1 + r.below(4);
         let cs: Vec<Constraint> = (0..nc).map(|i| self.constraint(r, &d, i)).collect();
         let ot = match r.below(5) { 0 | 1 => OptimizationType::Min, 2 | 3 => OptimizationType::Max, _ => OptimizationType::Satisfy };
-        let obj = if matches!(ot, OptimizationType::Satisfy) && r.chance(1, 2) { num(0.0) } else if self.arith { self.arith(r, &d, 2) } else { self.affine(r, &d) };
+        let obj = if matches!(ot, OptimizationType::Satisfy) && r.chance(1, 2) { num(0.0) }
+            // an objective whose direction reaches a block only through a constant factor or divisor, written on either side
+            else if self.arith && r.chance(1, 5) {
+                let blk = match r.below(3) { 0 => Exp::Abs(b(self.affine(r, &d))), 1 => Exp::Max(vec![self.affine(r, &d), self.affine(r, &d)]), _ => Exp::Min(vec![self.affine(r, &d), self.affine(r, &d)]) };
+                let c = num(*r.pick(&[-1.0, -2.0, 2.0, -0.5, 3.0]));
+                let scaled = match r.below(4) { 0 => bin(BinOp::Mul, blk, c), 1 => bin(BinOp::Mul, c, blk), 2 => bin(BinOp::Div, blk, c), _ => Exp::UnOp(UnOp::Neg, b(bin(BinOp::Mul, blk, c))) };
+                bin(BinOp::Add, scaled, self.affine(r, &d)) }
+            else if self.arith { self.arith(r, &d, 2) } else { self.affine(r, &d) };
         (build_model(ot, obj, cs, &d), d)
     }
 }
